@@ -1220,4 +1220,102 @@ theorem zipAccountI_sound (sizes : List Int) : ∀ (run limit : Int), 0 ≤ run 
       · have := hw.2 (by omega)
         omega
 
+/-! ## bstrUnmarshal -/
+
+/-- the matches are ordered, seven bytes long and inside the string -/
+def MatchChain (len : Nat) : List (Nat × Nat) → Nat → Prop
+  | [], _ => True
+  | (m0, m1) :: rest, cursor => cursor ≤ m0 ∧ m1 = m0 + 7 ∧ m1 ≤ len ∧ MatchChain len rest m1
+
+theorem MatchChain_mono (len : Nat) (ms : List (Nat × Nat)) : ∀ (a b : Nat), a ≤ b → MatchChain len ms b → MatchChain len ms a := by
+  cases ms with
+  | nil => intro _ _ _ _; trivial
+  | cons m rest =>
+    obtain ⟨m0, m1⟩ := m
+    intro a b hab h
+    exact ⟨by have := h.1; omega, h.2.1, h.2.2.1, h.2.2.2⟩
+
+theorem bstrMatches_chain (s : List Char) : ∀ (fuel i : Nat), MatchChain s.length (bstrMatches s fuel i) i := by
+  intro fuel
+  induction fuel with
+  | zero => intro i; trivial
+  | succ f ih =>
+    intro i
+    unfold bstrMatches
+    split
+    · split
+      · rename_i he
+        have hl : i + 7 ≤ s.length := by
+          simp only [escAt, Bool.and_eq_true, decide_eq_true_eq] at he
+          exact he.1.1.1.1.1.1.1
+        exact ⟨Nat.le_refl _, rfl, hl, ih (i + 7)⟩
+      · exact MatchChain_mono _ _ i (i + 1) (by omega) (ih (i + 1))
+    · trivial
+
+theorem bstrSegs_no_panic (len : Nat) (ms : List (Nat × Nat)) : ∀ (cursor : Nat), cursor ≤ len →
+    MatchChain len ms cursor → (bstrSegs len ms cursor).isPanic = false := by
+  induction ms with
+  | nil =>
+    intro cursor hc _
+    unfold bstrSegs
+    split
+    · have : sliceOK len cursor len = true := by simp [sliceOK]; omega
+      rw [this]; rfl
+    · rfl
+  | cons m rest ih =>
+    obtain ⟨m0, m1⟩ := m
+    intro cursor hc h
+    obtain ⟨h1, h2, h3, h4⟩ := h
+    unfold bstrSegs
+    have a : sliceOK len cursor m0 = true := by simp [sliceOK]; omega
+    have b : sliceOK len m0 m1 = true := by simp [sliceOK]; omega
+    have c : sliceOK len (m0 + 2) (m1 - 1) = true := by simp [sliceOK]; omega
+    rw [a, b, c]
+    simp only [not_true_eq_false, if_false]
+    apply bind_no_panic _ _ (ih m1 h3 h4)
+    intro t _; rfl
+
+/-! ## more allocation bounds -/
+
+theorem padTo_length_le (cells : List Cell) (n : Nat) :
+    (padTo cells n).length = (if cells.length ≤ n then n else cells.length) := by
+  unfold padTo
+  simp only [List.length_append, List.length_replicate]
+  split <;> omega
+
+theorem mem_le_sum (sizes : List Nat) : ∀ s ∈ sizes, s ≤ sizes.sum := by
+  induction sizes with
+  | nil => intro s h; cases h
+  | cons x xs ih =>
+    intro s h
+    simp only [List.sum_cons]
+    cases h with
+    | head => omega
+    | tail _ hm => have := ih s hm; omega
+
+/-! ## GetRows accounting -/
+
+theorem getRowsLoop_inv (iters : List Bool) : ∀ (len : Nat) (cur maxVal : Int),
+    (len : Int) = maxVal → 0 ≤ maxVal → maxVal ≤ cur →
+    ∃ len' maxVal', getRowsLoop iters len cur maxVal = .ok (len', maxVal') ∧ (len' : Int) = maxVal' ∧
+      0 ≤ maxVal' ∧ maxVal' ≤ cur + (iters.length : Int) := by
+  induction iters with
+  | nil => intro len cur maxVal h1 h2 h3; exact ⟨len, maxVal, rfl, h1, h2, by simpa using h3⟩
+  | cons b rest ih =>
+    intro len cur maxVal h1 h2 h3
+    unfold getRowsLoop
+    simp only
+    cases b with
+    | true =>
+      simp only [if_true]
+      split
+      · obtain ⟨l, m, e, a, c, d⟩ := ih (len + (cur + 1 - maxVal - 1).toNat + 1) (cur + 1) (cur + 1) (by omega) (by omega) (Int.le_refl _)
+        exact ⟨l, m, e, a, c, by simp only [List.length_cons]; omega⟩
+      · obtain ⟨l, m, e, a, c, d⟩ := ih (len + 1) (cur + 1) (cur + 1) (by omega) (by omega) (Int.le_refl _)
+        exact ⟨l, m, e, a, c, by simp only [List.length_cons]; omega⟩
+    | false =>
+      simp only [Bool.false_eq_true, if_false]
+      obtain ⟨l, m, e, a, c, d⟩ := ih len (cur + 1) maxVal h1 h2 (by omega)
+      exact ⟨l, m, e, a, c, by simp only [List.length_cons]; omega⟩
+
 end XlModel.Decode
